@@ -1,6 +1,6 @@
 SPECIFICATION Spec
 CONSTANTS
-  NRs = {1,2,3}
+  NRs = {2,3}
   Ns = {0,1,2,3}
   Vals = {0,3}
   Wts = {1,2}
@@ -22,6 +22,7 @@ INVARIANT MeanIsWeightedMean
 INVARIANT VarianceIsTwoPass
 INVARIANT ScheduleIndependent
 INVARIANT NoError
+INVARIANT DirectVarLemma
 INVARIANT FitsInv
 CONSTRAINT Emit
 CHECK_DEADLOCK FALSE
